@@ -621,13 +621,15 @@ def check(program, rep):
     folder = Folder(program)
     rfn = program.get(SCP + ":SCPConnection.read.packets")
     wfn = program.get(SCP + ":SCPConnection.write.packets")
-    c1, b1 = r1_scp_read(program, folder, rep)
-    c2, b2 = r1_scp_write(program, folder, rep)
-    r1_links(program, folder, rep)
-    r2_dtype(program, folder, rep, [(rfn, c1, b1), (wfn, c2, b2)])
-    r3_payload(program, folder, rep)
-    r4_addresses(program, folder, rep)
-    r5_roles(program, rep)
+    c1, b1 = rep.guard("C07-R1", r1_scp_read, program, folder, rep) or (
+        None, None)
+    c2, b2 = rep.guard("C07-R1", r1_scp_write, program, folder, rep) or (
+        None, None)
+    rep.guard("C07-R1", r1_links, program, folder, rep)
+    rep.guard("C07-R2", r2_dtype, program, folder, rep, [(rfn, c1, b1), (wfn, c2, b2)])
+    rep.guard("C07-R3", r3_payload, program, folder, rep)
+    rep.guard("C07-R4", r4_addresses, program, folder, rep)
+    rep.guard("C07-R5", r5_roles, program, rep)
     rep.floor("C07-R1", 25)
     return finish(rep, program, EXPLANATION, NOT_DECIDED,
                   trusted=["slice-length and floor-division axioms of the "
